@@ -141,3 +141,12 @@ Check cont_ok_leaves_no_error_pending :
   forall (I : iface) (w : world) (t : text) (w' : world),
     api_cont I sw_now w = (OOk t, w') -> ss_errors (w_state w') = [].
 Print Assumptions cont_ok_leaves_no_error_pending.
+
+(* T-gen tie of the event-log theorems: the Rust engine calls into the host at exactly the places (and from exactly the
+   callers) where the model logs an event — regenerated from the sources on every run *)
+From Ink.Gen Require Import EngineGen.
+From Ink.Shell Require Import EventsTie.
+Theorem host_calls_are_where_the_model_logs_them : host_calls_confined = true.
+Proof. exact EventsTie.now_host_calls_confined. Qed.
+Check host_calls_are_where_the_model_logs_them : host_calls_confined = true.
+Print Assumptions host_calls_are_where_the_model_logs_them.
